@@ -270,9 +270,7 @@ impl Driver {
 }
 
 fn scratch_root() -> PathBuf {
-    let p = PathBuf::from("/verif/harness/target/tmp").join(format!("c17-{}", std::process::id()));
-    let _ = std::fs::create_dir_all(&p);
-    p
+    scratch_dir("c17")
 }
 
 async fn c17_sequence(backend: Backend, seed: u64, i: u64, root: &Path) -> CaseOut {
